@@ -58,12 +58,17 @@ type SignalCase struct {
 	// calls (empty: one Add per service).  RegMode: 0 literal arguments,
 	// 1 Add(slice...) where the caller keeps appending to / overwriting its
 	// own slice afterwards, 2 one scratch buffer reused for every group.
-	Groups   []int `json:"groups,omitempty"`
-	RegMode  int   `json:"reg_mode,omitempty"`
-	Outcomes []int `json:"outcomes"` // per service: 0 nil, 1 error, 2 panic
-	Pre      []int `json:"pre"`      // non-shutdown signals before the shutdown signal
-	Shut     int   `json:"shut"`     // the shutdown signal
-	Post     []int `json:"post"`     // signals after it
+	Groups  []int `json:"groups,omitempty"`
+	RegMode int   `json:"reg_mode,omitempty"`
+	// Outcomes per service: 0 nil, 1 error, 2 panic, 3 waits until the
+	// shutdown context is done and returns its error (overruns the timeout),
+	// 4 waits until the context is done and returns nil.
+	Outcomes []int `json:"outcomes"`
+	// CancelledParent: Handle is called with an already cancelled context.
+	CancelledParent bool  `json:"cancelled_parent,omitempty"`
+	Pre             []int `json:"pre"`  // non-shutdown signals before the shutdown signal
+	Shut            int   `json:"shut"` // the shutdown signal
+	Post            []int `json:"post"` // signals after it
 }
 
 var sigTable = map[int]os.Signal{
@@ -91,7 +96,7 @@ type svc struct {
 }
 
 func (s *svc) Start(context.Context) error { return nil }
-func (s *svc) Shutdown(context.Context) error {
+func (s *svc) Shutdown(ctx context.Context) error {
 	s.mu.Lock()
 	*s.calls = append(*s.calls, s.id)
 	s.mu.Unlock()
@@ -100,6 +105,12 @@ func (s *svc) Shutdown(context.Context) error {
 		return fmt.Errorf("service %d failed to shut down", s.id)
 	case 2:
 		panic(fmt.Sprintf("service %d panicked in Shutdown", s.id))
+	case 3:
+		<-ctx.Done()
+		return ctx.Err()
+	case 4:
+		<-ctx.Done()
+		return nil
 	}
 	return nil
 }
@@ -202,7 +213,13 @@ func checkSignal(c SignalCase) error {
 					done <- -1
 				}
 			}()
-			done <- h.Handle(context.Background())
+			ctx := context.Background()
+			if c.CancelledParent {
+				var cancel context.CancelFunc
+				ctx, cancel = context.WithCancel(ctx)
+				cancel()
+			}
+			done <- h.Handle(ctx)
 		}()
 		synctest.Wait()
 		n.mu.Lock()
@@ -226,6 +243,11 @@ func checkSignal(c SignalCase) error {
 		ch <- sigTable[c.Shut]
 		synctest.Wait()
 		if len(done) != 1 {
+			// Services of kind 3/4 wait for the shutdown timeout (virtual time).
+			time.Sleep(5 * time.Second)
+			synctest.Wait()
+		}
+		if len(done) != 1 {
 			v.fail("Handle did not return after %v", sigTable[c.Shut])
 			return
 		}
@@ -241,13 +263,13 @@ func checkSignal(c SignalCase) error {
 		allNil := true
 		for i := len(c.Outcomes) - 1; i >= 0; i-- {
 			want = append(want, i)
-			allNil = allNil && c.Outcomes[i] == 0
+			allNil = allNil && (c.Outcomes[i] == 0 || c.Outcomes[i] == 4)
 		}
 		mu.Lock()
 		got := slices.Clone(calls)
 		mu.Unlock()
 		if !slices.Equal(got, want) {
-			v.fail("Shutdown calls (service indexes) = %v, want every registered service once in reverse order %v (outcomes %v)", got, want, c.Outcomes)
+			v.fail("Shutdown calls (service indexes) = %v, want every registered service once in reverse order %v (outcomes %v, cancelled parent context: %v)", got, want, c.Outcomes, c.CancelledParent)
 			return
 		}
 		if (status == osutil.ExitCodeSuccess) != allNil {
@@ -262,6 +284,9 @@ func checkSignal(c SignalCase) error {
 	}
 	if slices.Contains(c.Outcomes, 2) {
 		vp.Class("signal:with-panicking-service")
+	}
+	if slices.Contains(c.Outcomes, 3) || slices.Contains(c.Outcomes, 4) || c.CancelledParent {
+		vp.Class("signal:shutdown-context-done-during-the-loop")
 	}
 	if len(c.Pre) > 0 {
 		vp.Class("signal:with-ignored-signals")
@@ -281,12 +306,13 @@ var signalProp = vp.Register(vp.Prop[SignalCase]{
 	Kind: "c18.signal", Base: 8000,
 	Gen: func(t *rapid.T) SignalCase {
 		return SignalCase{
-			Groups:   rapid.SliceOfN(rapid.IntRange(1, 4), 0, 4).Draw(t, "groups"),
-			RegMode:  rapid.IntRange(0, 2).Draw(t, "regmode"),
-			Outcomes: rapid.SliceOfN(rapid.SampledFrom([]int{0, 0, 1, 2}), 0, 6).Draw(t, "outcomes"),
-			Pre:      rapid.SliceOfN(rapid.SampledFrom([]int{1, 10, 12, 13, 17, 28}), 0, 6).Draw(t, "pre"),
-			Shut:     rapid.SampledFrom([]int{2, 3, 15}).Draw(t, "shut"),
-			Post:     rapid.SliceOfN(rapid.SampledFrom([]int{1, 2, 15, 10}), 0, 3).Draw(t, "post"),
+			Groups:          rapid.SliceOfN(rapid.IntRange(1, 4), 0, 4).Draw(t, "groups"),
+			RegMode:         rapid.IntRange(0, 2).Draw(t, "regmode"),
+			Outcomes:        rapid.SliceOfN(rapid.SampledFrom([]int{0, 0, 0, 1, 1, 2, 2, 3, 4}), 0, 6).Draw(t, "outcomes"),
+			CancelledParent: rapid.IntRange(0, 5).Draw(t, "cancelled") == 0,
+			Pre:             rapid.SliceOfN(rapid.SampledFrom([]int{1, 10, 12, 13, 17, 28}), 0, 6).Draw(t, "pre"),
+			Shut:            rapid.SampledFrom([]int{2, 3, 15}).Draw(t, "shut"),
+			Post:            rapid.SliceOfN(rapid.SampledFrom([]int{1, 2, 15, 10}), 0, 3).Draw(t, "post"),
 		}
 	},
 	Check: checkSignal,
